@@ -29,10 +29,10 @@ def run(tier):
             return 0
         i = len(acts) - 1 - acts[::-1].index("Restart")
         return acts[i:].count("Submit") * 10 + acts[:i].count("Submit") + (5 if "PeerUp" in acts[:i] else 0)
-    plans = [dict(name="epoch-gap", fam=famg, algo="epidemic", budget=3, steps=6, cap=350 if quick else None, mc=False, prefer=after_restart)]
+    plans = [dict(name="epoch-gap", fam=famg, algo="epidemic", budget=3, steps=6, cap=350 if quick else 3000, mc=False, prefer=after_restart)]
     for a in (["epidemic", "binary_spray"] if quick else ALGOS):
-        plans.append(dict(name="same-ms", fam=fam, algo=a, budget=3, steps=5 if quick else 6, sim=(30, 12) if quick else (600, 16), cap=250 if quick else None, mc=not quick or a == "epidemic"))
-        plans.append(dict(name="epoch", fam=famz, algo=a, budget=3, steps=5 if quick else 6, cap=200 if quick else None, mc=False))
+        plans.append(dict(name="same-ms", fam=fam, algo=a, budget=3, steps=5 if quick else 6, sim=(30, 12) if quick else (600, 16), cap=250 if quick else 3000, mc=not quick or a == "epidemic"))
+        plans.append(dict(name="epoch", fam=famz, algo=a, budget=3, steps=5 if quick else 6, cap=200 if quick else 2000, mc=False))
     total, st = run_families(chk, "C14", plans, tier)
     own_violations(chk, "C14")
     chk.cov["traces_validated_against_impl"] = total
